@@ -25,6 +25,9 @@ pub struct Case {
     pub parties: (usize, usize),
     /// generators built small and grown with `increase_capacity` instead of `new(cap, ..)`
     pub grown: bool,
+    /// Pedersen bases used by both roles: 0 = `PedersenGens::default()`, 1 = (3B + B~, 5B~ + B),
+    /// 2 = the two default bases exchanged (all prime-order points)
+    pub bases: u8,
 }
 
 #[derive(Debug)]
@@ -35,7 +38,24 @@ pub enum Out {
     Precond(String),
 }
 
-pub fn run_case<G: Cv>(env: &Env<G>, c: &Case, seed: u64) -> Out {
+pub fn custom_bases<G: Cv>(kind: u8) -> ark_bulletproofs::PedersenGens<G> {
+    use ark_ec::{AffineRepr, CurveGroup};
+    let d = ark_bulletproofs::PedersenGens::<G>::default();
+    match kind {
+        1 => ark_bulletproofs::PedersenGens { B: (d.B.into_group() * G::ScalarField::from(3u64) + d.B_blinding).into_affine(), B_blinding: (d.B_blinding.into_group() * G::ScalarField::from(5u64) + d.B).into_affine() },
+        2 => ark_bulletproofs::PedersenGens { B: d.B_blinding, B_blinding: d.B },
+        _ => d,
+    }
+}
+
+pub fn run_case<G: Cv>(env0: &Env<G>, c: &Case, seed: u64) -> Out {
+    let env_custom;
+    let env: &Env<G> = if c.bases == 0 {
+        env0
+    } else {
+        env_custom = Env::<G> { pc: custom_bases::<G>(c.bases), bp: env0.bp.clone() };
+        &env_custom
+    };
     let (bp_p, bp_v);
     let (bpp, bpv): (&BulletproofGens<G>, &BulletproofGens<G>) = match c.caps {
         None => (&env.bp, &env.bp),
@@ -155,14 +175,14 @@ pub fn cases(tier: Tier) -> (Vec<Case>, serde_json::Value) {
     let n_shape = progs.len();
     for (i, p) in progs.into_iter().enumerate() {
         match tier {
-            Tier::Quick => out.push(Case { curve: CURVES[i % 3], prog: p, caps: None, class: "shape", hist: vec![], chain: vec![], parties: (1, 1), grown: false }),
+            Tier::Quick => out.push(Case { curve: CURVES[i % 3], prog: p, caps: None, class: "shape", hist: vec![], chain: vec![], parties: (1, 1), grown: false, bases: 0 }),
             Tier::Thorough => {
                 // depth-4 layer: one curve per program (round-robin); everything shallower: all curves
                 if p.p1.len() == 4 || (p.p1.len() == 3 && p.closures.iter().any(|c| c.len() == 2)) {
-                    out.push(Case { curve: CURVES[i % 3], prog: p, caps: None, class: "shape", hist: vec![], chain: vec![], parties: (1, 1), grown: false });
+                    out.push(Case { curve: CURVES[i % 3], prog: p, caps: None, class: "shape", hist: vec![], chain: vec![], parties: (1, 1), grown: false, bases: 0 });
                 } else {
                     for c in CURVES {
-                        out.push(Case { curve: c, prog: p.clone(), caps: None, class: "shape", hist: vec![], chain: vec![], parties: (1, 1), grown: false });
+                        out.push(Case { curve: c, prog: p.clone(), caps: None, class: "shape", hist: vec![], chain: vec![], parties: (1, 1), grown: false, bases: 0 });
                     }
                 }
             }
@@ -182,13 +202,13 @@ pub fn cases(tier: Tier) -> (Vec<Case>, serde_json::Value) {
                     if tier == Tier::Quick && a != b && !(a == 0 && b == 3) && !(a == 3 && b == 0) {
                         continue;
                     }
-                    out.push(Case { curve: c, prog: p.clone(), caps: Some((*cp, *cv)), class: "size", hist: vec![], chain: vec![], parties: (1, 1), grown: false });
+                    out.push(Case { curve: c, prog: p.clone(), caps: Some((*cp, *cv)), class: "size", hist: vec![], chain: vec![], parties: (1, 1), grown: false, bases: 0 });
                     n_size += 1;
                 }
             }
             // generators with several parties and generators grown by increase_capacity
             for (parties, grown) in [((2, 1), false), ((1, 3), false), ((1, 1), true), ((3, 2), true)] {
-                out.push(Case { curve: c, prog: p.clone(), caps: Some((nh, 2 * nh)), class: "size", hist: vec![], chain: vec![], parties, grown });
+                out.push(Case { curve: c, prog: p.clone(), caps: Some((nh, 2 * nh)), class: "size", hist: vec![], chain: vec![], parties, grown, bases: 0 });
                 n_size += 1;
             }
         }
@@ -205,8 +225,8 @@ pub fn cases(tier: Tier) -> (Vec<Case>, serde_json::Value) {
             if tier == Tier::Quick && ci != bi % 3 {
                 continue;
             }
-            out.push(Case { curve: c, prog: p.clone(), caps: Some((nh, nh)), class: "size", hist: vec![], chain: vec![], parties: (1, 1), grown: false });
-            out.push(Case { curve: c, prog: p.clone(), caps: Some((nh + 1, 2 * nh)), class: "size", hist: vec![], chain: vec![], parties: (1, 1), grown: false });
+            out.push(Case { curve: c, prog: p.clone(), caps: Some((nh, nh)), class: "size", hist: vec![], chain: vec![], parties: (1, 1), grown: false, bases: 0 });
+            out.push(Case { curve: c, prog: p.clone(), caps: Some((nh + 1, 2 * nh)), class: "size", hist: vec![], chain: vec![], parties: (1, 1), grown: false, bases: 0 });
             n_size += 2;
         }
     }
@@ -220,7 +240,7 @@ pub fn cases(tier: Tier) -> (Vec<Case>, serde_json::Value) {
                 }
                 let mut q = p.clone();
                 q.values = vals.clone();
-                out.push(Case { curve: c, prog: q, caps: None, class: "value", hist: vec![], chain: vec![], parties: (1, 1), grown: false });
+                out.push(Case { curve: c, prog: q, caps: None, class: "value", hist: vec![], chain: vec![], parties: (1, 1), grown: false, bases: 0 });
                 n_val += 1;
             }
         }
@@ -238,8 +258,24 @@ pub fn cases(tier: Tier) -> (Vec<Case>, serde_json::Value) {
                     if d == 2 && (hi + si + ci) % 3 != 0 {
                         continue;
                     }
-                    out.push(Case { curve: c, prog: sp.clone(), caps: None, class: "history", hist: h.clone(), chain: vec![], parties: (1, 1), grown: false });
+                    out.push(Case { curve: c, prog: sp.clone(), caps: None, class: "history", hist: h.clone(), chain: vec![], parties: (1, 1), grown: false, bases: 0 });
                     n_hist += 1;
+                }
+            }
+        }
+    }
+    // non-default Pedersen bases (the same on both roles)
+    let mut n_bases = 0;
+    {
+        let mut bprogs: Vec<Program> = subjects.clone();
+        for (k, n1, n2) in [(Kind::M, 2, 0), (Kind::M, 3, 0), (Kind::M, 1, 2), (Kind::AOdd, 5, 0), (Kind::X, 2, 3), (Kind::APairs, 0, 4)] {
+            bprogs.push(size_program(k, n1, n2));
+        }
+        for bp in &bprogs {
+            for kind in [1u8, 2] {
+                for c in CURVES.iter() {
+                    out.push(Case { curve: c, prog: bp.clone(), caps: None, class: "bases", hist: vec![], chain: vec![], parties: (1, 1), grown: false, bases: kind });
+                    n_bases += 1;
                 }
             }
         }
@@ -250,11 +286,11 @@ pub fn cases(tier: Tier) -> (Vec<Case>, serde_json::Value) {
         for (j, b) in subjects.iter().enumerate() {
             for c in CURVES.iter() {
                 let _ = (i, j);
-                out.push(Case { curve: c, prog: b.clone(), caps: None, class: "chained", hist: vec![], chain: vec![a.clone()], parties: (1, 1), grown: false });
+                out.push(Case { curve: c, prog: b.clone(), caps: None, class: "chained", hist: vec![], chain: vec![a.clone()], parties: (1, 1), grown: false, bases: 0 });
                 n_chain += 1;
                 if tier == Tier::Thorough {
                     for z in subjects.iter() {
-                        out.push(Case { curve: c, prog: z.clone(), caps: None, class: "chained", hist: vec![], chain: vec![a.clone(), b.clone()], parties: (1, 1), grown: false });
+                        out.push(Case { curve: c, prog: z.clone(), caps: None, class: "chained", hist: vec![], chain: vec![a.clone(), b.clone()], parties: (1, 1), grown: false, bases: 0 });
                         n_chain += 1;
                     }
                 }
@@ -269,6 +305,8 @@ pub fn cases(tier: Tier) -> (Vec<Case>, serde_json::Value) {
         "size_family": format!("S({}) x kinds {{APairs,AOdd,M,X}} x capacity pairs from {{n^, n^+1, 2n^, 64}} + party capacities (2,1),(1,3) + generators grown by increase_capacity", sn),
         "size_cases": n_size,
         "value_cases": n_val,
+        "custom_base_cases": n_bases,
+        "custom_bases": "both roles use PedersenGens { B: 3B + B~, B_blinding: 5B~ + B } resp. the two default bases exchanged, on the history subjects and six sized circuits (0..5 gates, both phases)",
         "chained_cases": n_chain,
         "chained": "earlier proofs made and verified on the same borrowed transcripts (Prover::new(pc, &mut t) / Verifier::new(&mut t)), the subject continues on them: ordered pairs (quick) and triples (thorough) of the history subjects",
         "history_cases": n_hist,
@@ -322,8 +360,8 @@ pub fn main(o: &Opts) -> i32 {
                 rep.evaluations += 1;
                 rep.count("violation", 1);
                 rep.violation(Violation {
-                    key: json!({"curve": c.curve, "program": c.prog.name(), "caps": c.caps, "history": history::hist_name(&c.hist), "chain": c.chain.iter().map(|p| p.name()).collect::<Vec<_>>(), "parties": [c.parties.0, c.parties.1], "grown": c.grown}),
-                    case: json!({"curve": c.curve, "program": c.prog.name(), "caps": c.caps.map(|x| vec![x.0, x.1]), "history": history::hist_name(&c.hist), "chain": c.chain.iter().map(|p| p.name()).collect::<Vec<_>>(), "parties": [c.parties.0, c.parties.1], "grown": c.grown}),
+                    key: json!({"curve": c.curve, "program": c.prog.name(), "caps": c.caps, "history": history::hist_name(&c.hist), "chain": c.chain.iter().map(|p| p.name()).collect::<Vec<_>>(), "parties": [c.parties.0, c.parties.1], "grown": c.grown, "bases": c.bases}),
+                    case: json!({"curve": c.curve, "program": c.prog.name(), "caps": c.caps.map(|x| vec![x.0, x.1]), "history": history::hist_name(&c.hist), "chain": c.chain.iter().map(|p| p.name()).collect::<Vec<_>>(), "parties": [c.parties.0, c.parties.1], "grown": c.grown, "bases": c.bases}),
                     expected: expected.clone(),
                     observed: observed.clone(),
                     note: "satisfied constraint system".into(),
@@ -355,7 +393,8 @@ pub fn replay(path: &str, o: &Opts) -> i32 {
     let chain: Vec<Program> = case["chain"].as_array().map(|a| a.iter().map(|x| Program::parse(x.as_str().unwrap()).expect("chain program")).collect()).unwrap_or_default();
     let parties = case["parties"].as_array().map(|a| (a[0].as_u64().unwrap() as usize, a[1].as_u64().unwrap() as usize)).unwrap_or((1, 1));
     let grown = case["grown"].as_bool().unwrap_or(false);
-    let c = Case { curve, prog, caps, class: "replay", hist, chain, parties, grown };
+    let bases = case["bases"].as_u64().unwrap_or(0) as u8;
+    let c = Case { curve, prog, caps, class: "replay", hist, chain, parties, grown, bases };
     let seed = v["seed"].as_u64().unwrap_or(o.seed);
     let run = || with_curve!(curve, G => { let env = Env::<G>::new(64); format!("{:?}", run_case::<G>(&env, &c, seed)) });
     let a = run();
